@@ -1,3 +1,5 @@
+//go:build !no_c11
+
 package props
 
 import (
